@@ -28,6 +28,33 @@ def impl_parse_dump(text):
         return "ERR " + classify_exc(e)
 
 
+def scope_problem(text):
+    """every declaration knows the scope it was written in: `namespaces()` / `full_namespaces()` of each parsed class, enum,
+    forward declaration and namespace is the path of enclosing namespace blocks, read off the nesting of the tree itself"""
+    from gtwrap.interface_parser import Module
+    from gtwrap.interface_parser.namespace import Namespace
+    try:
+        tree = Module.parseString(text)
+    except Exception:  # noqa
+        return None
+
+    def walk(ns, path):
+        for el in ns.content:
+            if isinstance(el, Namespace):
+                here = path + [el.name]
+                if el.full_namespaces() != here:
+                    return "namespace block %s reports the path %s" % ("::".join(here[1:]), "::".join(el.full_namespaces()[1:]))
+                r = walk(el, here)
+                if r:
+                    return r
+            elif hasattr(el, "namespaces") and callable(el.namespaces) and hasattr(el, "parent") and not hasattr(el, "typename"):
+                if el.namespaces() != path:
+                    return "%s %s declared in %s reports the scope %s" % (type(el).__name__, getattr(el, "name", "?"), "::".join(path[1:]) or "(global)",
+                                                                          "::".join(el.namespaces()[1:]) or "(global)")
+        return None
+    return walk(tree, [''])
+
+
 def impl_parse_dump_after_use(text):
     """the same text parsed AGAIN after the first tree was used the way both generators use it (instantiated in place):
     parsing is a function of the text"""
@@ -86,6 +113,7 @@ def case(idx, payload):
     want = gen.dump_module(m)
     impl = impl_parse_dump(text)
     impl_again = impl_parse_dump_after_use(text) if idx % 3 == 0 else impl
+    scope = scope_problem(text)
     model = model_parse_dump(text)
     # the Lean printer `Spec.lexemes` of the parsed tree vs the lexemes the text was rendered from, and whether the model
     # parser reads those lexemes back (the instance of theorem C01_module_roundtrip_lexemes for this tree)
@@ -97,7 +125,7 @@ def case(idx, payload):
         lean = norm_tokens([t[1:] for t in toks.split("\x1f")] if toks else [])
         mine = norm_tokens([t for _, t in gen.lexemes(m)])
         lex_eq = lean == mine
-    return dict(idx=idx, style=style, text=text, want=want, impl=impl, impl_again=impl_again, model=model, stats=stats_of(m),
+    return dict(idx=idx, style=style, text=text, want=want, impl=impl, impl_again=impl_again, scope=scope, model=model, stats=stats_of(m),
                 nlex=len(gen.lexemes(m)), lex_eq=lex_eq, rt=rt)
 
 
@@ -136,7 +164,9 @@ def run_stream(ctx, n, cfg_kw=None, tag="valid"):
         if r.get("lex_eq") is False and r["model"] == r["want"]:
             ctx.disagree("Spec.lexemes (Lean printer) of the tree differs from the lexemes the text was rendered from",
                          input=r["text"], case=r["idx"], stream=tag)
-        if r["impl"] == r["want"] and r.get("impl_again", r["impl"]) != r["impl"]:
+        if r.get("scope"):
+            ctx.spec_fail("a parsed declaration reports another scope than the one it is written in: " + r["scope"], input=r["text"], case=r["idx"], stream=tag)
+        elif r["impl"] == r["want"] and r.get("impl_again", r["impl"]) != r["impl"]:
             ctx.spec_fail("parsing the same text a second time (after the first tree was instantiated) gives another tree",
                           input=r["text"], case=r["idx"], stream=tag, **first_diff(r["impl"], r["impl_again"]))
         elif r["impl"] != r["want"]:
@@ -168,6 +198,7 @@ def run_corpus(ctx):
 def search(ctx):
     """spec (generator tree) vs implementation on a fresh targeted stream"""
     res = fw.run_cases(case, [(ctx.seed + 7919, None)] * ctx.scale(200, 1500))
+    res += fw.run_cases(case, [(ctx.seed + 7921, dict(p_underscore=0.35))] * ctx.scale(100, 800))
     res += fw.run_cases(case, [(ctx.seed + 7920, dict(p_kwlike=0.4, p_fwd_twin=0.6, extra_kinds=['enum', 'enum', 'fwd', 'fwd', 'fwd']))] * ctx.scale(200, 1500))
     for r in res:
         if "crash" not in r and r["impl"] != r["want"]:
@@ -193,6 +224,8 @@ def main(ctx):
     run_stream(ctx, ctx.scale(240, 6000))
     run_stream(ctx, ctx.scale(40, 800), dict(max_depth=ctx.scale(6, 30), max_decls=2, max_members=2), tag="deep")
     # identifiers that begin with / contain keywords of the dialect (`enum classification`, `structure_type`, `constant`)
+    run_stream(ctx, ctx.scale(80, 1500), dict(p_underscore=0.35), tag="leading underscores")
+    run_stream(ctx, ctx.scale(60, 1000), dict(ns_pool=["a", "b", "robot"], max_depth=4, max_decls=3, extra_kinds=['ns', 'ns', 'cls', 'enum', 'fwd']), tag="namespace names repeated on a path")
     run_stream(ctx, ctx.scale(120, 2500), dict(p_kwlike=0.4, p_fwd_twin=0.6, extra_kinds=['enum', 'enum', 'fwd', 'fwd', 'fwd']), tag="keyword-like names")
     for e in ctx.known:
         still = replay_finding(ctx, e)
